@@ -10,8 +10,9 @@ routers/legacy (router.go `NewRouter`, `FindRoute`; pathpattern/node.go `CreateN
     including the branch that lets a "/" suffix match exhausted input;
   * server selection: no servers → URL path; otherwise the first server whose URL pattern `MatchRawURL`
     accepts the raw request URL (variables stop at the next pattern character or '/');
-  * no trie match → literal lookup of the remaining path among the path keys: path-not-found / method-not-allowed
-    (and the nil dereference that would follow if a literal key with the method existed: explicit `panic`).
+  * no trie match → literal lookup of the remaining path among the path keys: no such key → path-not-found; key
+    without the method → method-not-allowed; key with the method (the request path spells a template that the trie
+    does not match, e.g. "/{id}.json") → path-not-found.
 routers/gorillamux (router.go `NewRouter`, `makeServers`, `newSrv`, `permutePart`, `FindRoute`;
 openapi3/paths.go `InMatchingOrder`):
   * route list = paths in matching order × servers; a route matches when path template (base path + path),
@@ -422,7 +423,7 @@ def legacyFind (d : Doc) (r : Req) : Outcome :=
     | none =>
       match lookupPath rem d.paths with
       | none => .notFound
-      | some pd => if r.method ∈ pd.methods then .panic else .methodNotAllowed
+      | some pd => if r.method ∈ pd.methods then .notFound else .methodNotAllowed
 
 /-! ## gorillamux router -/
 
